@@ -192,3 +192,29 @@ Theorem C06_ibb_expect_no_owner_check_refuted :
     forall l s', ex_step false s l = Some s' -> l <> AAccept -> ex_h s' = OAccept.
 Proof. exact ex_no_owner_check_loses_entry. Qed.
 Print Assumptions C06_ibb_expect_no_owner_check_refuted.
+
+(* ====================================================================== *)
+(* The id a blocking call registers is the id on the wire                  *)
+(* ====================================================================== *)
+
+(* For every start element — no id attribute, id="", a caller-chosen id, only a
+   namespace-qualified id, in any attribute order — the key under which
+   Send* registers the call equals the id the peer sees, and it is not
+   empty: a reply that carries the id from the wire is looked up under the
+   call's key. *)
+Theorem C06_registered_id_is_wire_id : forall attrs fresh fresh2,
+  fresh <> 0%N ->
+  let (key, wire) := send_ids GenWhenEmpty attrs fresh fresh2 in key = wire /\ key <> 0%N.
+Proof. exact key_is_wire_id. Qed.
+Print Assumptions C06_registered_id_is_wire_id.
+
+Theorem C06_chosen_id_is_kept : forall attrs fresh fresh2 k v,
+  find_id attrs 0 = Some (k, v) -> v <> 0%N -> send_ids GenWhenEmpty attrs fresh fresh2 = (v, v).
+Proof. exact chosen_id_is_kept. Qed.
+Print Assumptions C06_chosen_id_is_kept.
+
+(* What the table lemma [send_generates_id_whenever_empty] excludes. *)
+Theorem C06_id_generated_only_when_absent_refuted :
+  send_ids GenWhenAbsent (id_shape 1 0) 1000 2000 = (0%N, 2000%N).
+Proof. exact absent_only_breaks_empty_id. Qed.
+Print Assumptions C06_id_generated_only_when_absent_refuted.
